@@ -362,7 +362,7 @@ func init() {
 			judgeAll(sc, sim.Run(sc))
 			return r.Finish()
 		}
-		n, nseq, nfault := 300, 60, 40
+		n, nseq, nfault := 1500, 300, 120
 		if thorough() {
 			n, nseq, nfault = 30000, 6000, 2500
 		}
